@@ -47,7 +47,7 @@ if True:
             note="Decode theorems hold under decidable well-formedness hypotheses (token header names other than the framing headers, values without CR/LF not starting with SP, status 100..999, "
                  "Writes and lengths below 2^62, distinct declared trailer keys); identity framing needs the announced length to be met (cl_ok: handler obligation for a declared Content-Length; "
                  "without one no data after the first Flush - finding D9). They connect the two MODELS; each model's tie to its Go file is the differential run (C09 harness, C06/C07 harness). "
-                 "ReadFrom/Sendfile path not covered. Trusted: Coq kernel, extraction, OCaml driver, Go harness, net/http's client parser (oracle).",
+                 "ReadFrom (io.Copy / io.CopyN / ServeContent into the response) is covered as the sequence of Writes of the <= 32 KiB pieces io.Copy reads (harness ops `via`; the limit of an io.LimitedReader over a longer source must be kept - D46); the Sendfile branch of ReadFrom (file range on a plain connection) is exercised by the C10 end-to-end harness only. Trusted: Coq kernel, extraction, OCaml driver, Go harness, net/http's client parser (oracle).",
             design="4/C09, Appendix O"),
     }
 else:
